@@ -1,5 +1,7 @@
 import NessaiVerif.Model.MetaProposal
 import NessaiVerif.Proofs.Meta
+import NessaiVerif.Proofs.PyDict
+import NessaiVerif.Gen.MetaTx
 import Mathlib.Tactic.Ring
 import Mathlib.Tactic.Push
 /-
@@ -243,5 +245,85 @@ runs without error, and ends with weights 1/2, 1/2 -/
 example : (iteration (populate false [(1, (1 : Rat)), (2, 1)] []) 0 2
       [(3, 1, [1, 3/2]), (4, 1, [1, 1/2])] [(1, 2), (2, 1/2)] [] []).toOption.map (·.weights)
     = some [1/2, 1/2] := by decide +kernel
+
+/-! ## The weight bookkeeping, regenerated from the source on every run, IS the model
+
+`Gen/MetaTx.lean` is produced by `harness/c03_tx.py` from the current text of
+`ImportanceNestedSampler.add_new_proposal_weight`, `ImportanceFlowProposal.update_proposal_weights` and
+`compute_meta_proposal_from_log_q` over Python dictionaries in insertion order (`Model/PyDict.lean`).  The dictionaries
+`sample_counts` and `_weights` with keys `-1, 0, 1, …` are `PyDict.ofList (-1)` of the model's lists. -/
+
+/-- the call both branches end in: the weights dictionary computed from the updated counts, handed to
+`update_proposal_weights` -/
+theorem update_weights_call (counts' : List Nat) (ws : List K) (n : Nat) (hlen : ws.length ≤ counts'.length) :
+    Gen.MetaTx.update_proposal_weights (PyDict.ofList (-1) ws)
+        ((PyDict.ofList (-1) counts').map (fun kv => (kv.1, (((kv.2 : Nat) : K) / ((n : Nat) : K)))))
+    = if sumK (counts'.map (fun (c : Nat) => ((c : K) / (n : K)))) = 1
+      then .ok (PyDict.ofList (-1) (counts'.map (fun (c : Nat) => ((c : K) / (n : K)))))
+      else .error .runtimeErr := by
+  have hl : ws.length ≤ (counts'.map (fun (c : Nat) => ((c : K) / (n : K)))).length := by simpa using hlen
+  rw [PyDict.map_ofList (fun (c : Nat) => ((c : K) / (n : K)))]
+  unfold Gen.MetaTx.update_proposal_weights
+  rw [PyDict.update_ofList _ _ _ hl]
+  simp only [PyDict.values_ofList]
+  by_cases hs : sumK (counts'.map (fun (c : Nat) => ((c : K) / (n : K)))) = 1
+  · simp [hs]
+  · simp [hs]
+
+/-- `add_new_proposal_weight(j, nNew)` (with the `update_proposal_weights` call it ends in) is the model's
+`addProposalWeight`, errors included, whenever proposal `j` is the next one or an already registered one
+(`j + 1 ≤ counts.length`; a gap is outside this theorem: the correspondence covers it) and the proposal's `_weights`
+holds at most the keys `-1 … j` (it does: `train` adds the key of the new level with a NaN placeholder). -/
+theorem add_new_proposal_weight_source_eq_model (s : St K) (ws : List K) (j nNew : Nat)
+    (hj : j + 1 ≤ s.counts.length) (hw : ws.length ≤ j + 2) :
+    Gen.MetaTx.add_new_proposal_weight (PyDict.ofList (-1) s.counts) (PyDict.ofList (-1) ws) (refSize s) (j : Int) nNew
+      = (addProposalWeight s j nNew).map (fun s' => (PyDict.ofList (-1) s'.counts, PyDict.ofList (-1) s'.weights)) := by
+  have hk : (j : Int) = -1 + ((j + 1 : Nat) : Int) := by push_cast; ring
+  have hhas : PyDict.has (PyDict.ofList (-1) s.counts) (j : Int) = decide (j + 1 < s.counts.length) := by
+    rw [PyDict.has_ofList, decide_eq_decide]; omega
+  have hget : PyDict.getD (PyDict.ofList (-1) s.counts) (j : Int) 0 = s.counts.getD (j + 1) 0 := by
+    rw [hk, PyDict.getD_ofList]
+  unfold Gen.MetaTx.add_new_proposal_weight addProposalWeight
+  rw [hhas, hget]
+  by_cases hlt : j + 1 < s.counts.length
+  · by_cases hz : s.counts.getD (j + 1) 0 = 0
+    · have hset : PyDict.set (PyDict.ofList (-1) s.counts) (j : Int) nNew = PyDict.ofList (-1) (s.counts.set (j + 1) nNew) := by
+        rw [hk, PyDict.set_ofList_lt _ _ _ _ hlt]
+      have hc : ¬ ((decide (j + 1 < s.counts.length) && (s.counts.getD (j + 1) 0 != 0)) = true) := by rw [hz]; simp
+      have hm1 : ¬ (j + 1 < s.counts.length ∧ s.counts.getD (j + 1) 0 ≠ 0) := fun h => h.2 hz
+      have hm2 : ¬ (j + 1 > s.counts.length) := by omega
+      rw [if_neg hc, if_neg hm1, if_neg hm2]
+      simp only [hset, if_pos hlt]
+      rw [update_weights_call _ _ _ (by simp; omega)]
+      by_cases hs : sumK ((s.counts.set (j + 1) nNew).map (fun (c : Nat) => ((c : K) / ((refSize s + nNew : Nat) : K)))) = 1
+      · rw [if_pos hs, if_pos hs]; rfl
+      · rw [if_neg hs, if_neg hs]; rfl
+    · have hc : (decide (j + 1 < s.counts.length) && (s.counts.getD (j + 1) 0 != 0)) = true := by
+        rw [decide_eq_true hlt, Bool.true_and]; simpa using hz
+      have hm1 : j + 1 < s.counts.length ∧ s.counts.getD (j + 1) 0 ≠ 0 := ⟨hlt, hz⟩
+      rw [if_pos hc, if_pos hm1]; rfl
+  · have heq : s.counts.length = j + 1 := by omega
+    have hk' : (j : Int) = -1 + (s.counts.length : Int) := by rw [heq]; push_cast; ring
+    have hset : PyDict.set (PyDict.ofList (-1) s.counts) (j : Int) nNew = PyDict.ofList (-1) (s.counts ++ [nNew]) := by
+      rw [hk', PyDict.set_ofList_eq]
+    have hc : ¬ ((decide (j + 1 < s.counts.length) && (s.counts.getD (j + 1) 0 != 0)) = true) := by simp [hlt]
+    have hm1 : ¬ (j + 1 < s.counts.length ∧ s.counts.getD (j + 1) 0 ≠ 0) := fun h => hlt h.1
+    have hm2 : ¬ (j + 1 > s.counts.length) := by omega
+    rw [if_neg hc, if_neg hm1, if_neg hm2]
+    simp only [hset, if_neg hlt]
+    rw [update_weights_call _ _ _ (by simp; omega)]
+    by_cases hs : sumK ((s.counts ++ [nNew]).map (fun (c : Nat) => ((c : K) / ((refSize s + nNew : Nat) : K)))) = 1
+    · rw [if_pos hs, if_pos hs]; rfl
+    · rw [if_neg hs, if_neg hs]; rfl
+
+/-- `compute_meta_proposal_from_log_q`: the meta-proposal density of every stored row is `mix` under the current weights —
+what `updateSample` / `newSample` store in `Q` -/
+theorem meta_from_log_q_source_eq_model (w : List K) (rows : List (List K)) :
+    Gen.MetaTx.compute_meta_proposal_from_log_q (PyDict.ofList (-1) w) rows = rows.map (mix w) := by
+  simp [Gen.MetaTx.compute_meta_proposal_from_log_q]
+
+/-- non-vacuity: registering proposal 0 with 2 new samples on top of 2 initial ones gives weights 1/2, 1/2 -/
+example : Gen.MetaTx.add_new_proposal_weight (PyDict.ofList (-1) [2]) (PyDict.ofList (-1) [(1 : Rat), 0]) 2 0 2
+    = .ok ([(-1, 2), (0, 2)], [(-1, 1/2), (0, 1/2)]) := by decide +kernel
 
 end NessaiVerif.C03
